@@ -19,7 +19,8 @@ RULE = ("suite game: one case = one or two games on a real MPF machine (rig.Fake
         "Profiles bias towards: adds in every gap, extra balls, multiball arithmetic, early ends, plain games, balls ended by request "
         "that drain at every later suspension point (latedrain), negative / left-over playfield counts (strays), joins inside the "
         "last player's turn-ending events with balls_per_game 1 (lastjoin), two further game modes gm0/gm1 that start and stop during the "
-        "game, the stop of gm0 held by a handler of mode_gm0_stopping across turn ends and the game end (modes), the game mode stopped "
+        "game (their start / stop events arrive inside held lifecycle queue events and idle waits), the stop of gm0 held by a handler of "
+        "mode_gm0_stopping across turn ends and the game end (modes), the game mode stopped "
         "from outside (modes.game.stop(), what service_mode_entered does) at a generated quiescent suspension point: idle waits and every "
         "batch of held lifecycle queue events; afterwards every held handler finishes and lifecycle events of the stopped game are "
         "recorded (stopper; 76 of 600 quick games are stopped, in all six queue events). "
@@ -56,7 +57,8 @@ ASSUMPTIONS = [
     "bonus/high-score modes are not loaded; in suite game slam tilt is the effect of Tilt.slam_tilt on a game object that is not tilted "
     "(slam_tilted=True, end_ball unless ending; Coq: slam_request_is_core_op); the real tilt mode runs in suite devices, where its hold of "
     "ball_ending (balls to collect, settle time) is a handler delay that is not modelled",
-    "the external stop of the game mode, the release of a held player_adding queue and the release of gm0's held stop are issued only while "
+    "the external stop of the game mode, the start / stop events of the further game modes, the release of a held player_adding queue and the "
+    "release of gm0's held stop are issued only while "
     "the machine is quiescent (idle batch / batch inside a held lifecycle queue event): inside a handler their completion races with the "
     "resumption of the coroutine (C01/C02); no game mode start / stop event after the first generated stop request; the handler that holds "
     "gm0's stop lets go at the latest at the next ball_ending; after an external stop attract is restarted by posting game_ended (as the "
@@ -76,9 +78,11 @@ K = {n: i for i, n in enumerate(KINDS)}
 QUEUE = {1, 4, 7, 10, 13, 16}
 GWS, GSg, GSd, GWE, GEg, GEd, PTWS, PTSg, PTSd, PTWE, PTEg, PTEd, BWS, BSg, BSd, BWE, BEg, BEd = range(18)
 
-# operations that are only issued while the machine is quiescent (idle batch, batch inside a held lifecycle queue event): their
-# completion races with the resumption of the coroutine from the event being handled (event manager / asyncio: C01/C02)
-EV_EXCLUDED = ("release", "mrelease", "stop")
+# operations that are only issued while the machine is quiescent (idle batch, batch inside a held lifecycle queue event): they
+# complete in queue-event tasks / callbacks, and inside a handler of a lifecycle event that completion races with the resumption of
+# the coroutine and with the operations of the NEXT lifecycle event (event manager / asyncio: C01/C02).  Observed: a stop of gm0
+# issued by a handler of ball_starting is still under way when the handlers of ball_started run.
+EV_EXCLUDED = ("release", "mrelease", "stop", "mstart", "mstop")
 
 # two further game modes (game modes have to stop at the ball end: the config validator refuses stop_on_ball_end: false for them).
 # gm0: a handler of mode_gm0_stopping (a goodbye show) can keep the queue of a stop that gm0's own stop event started; it lets go
@@ -197,7 +201,7 @@ def gen_idle(rng, prof):
 
 def gen_input(rng, prof, dens):
     holds = []
-    if rng.random() < 0.12:
+    if rng.random() < (0.4 if prof == "modes" else 0.12):
         holds = [gen_batch(rng, prof, 0.7) for _ in range(rng.choice([0, 1, 1, 2, 3]))]
     return {"ev": gen_batch(rng, prof, dens, ev=True), "holds": holds, "idle": gen_idle(rng, prof)}
 
@@ -216,6 +220,15 @@ def gen_game(rng, tier, i):
     if tier == "thorough" and rng.random() < 0.2:
         n *= 2
     ins = [gen_input(rng, prof, dens) for _ in range(n)]
+    if prof == "modes":
+        # gm0 starts and gets its own stop event, held by a handler, while a lifecycle queue event is held (when that is
+        # player_turn_ending of the last turn or game_ending, the game ends while gm0's stop is still held)
+        for inp in ins:
+            r = rng.random()
+            if r < 0.2:
+                inp["holds"] = [[["mstart", 0]], [["mstop", 0, True]]] + inp["holds"]
+            elif r < 0.3:
+                inp["holds"] = inp["holds"] + [[["mstop", 0, True]]]
     if prof == "stopper" or (prof == "modes" and rng.random() < 0.3):
         # the game mode is stopped from outside (service mode entered, machine code calling modes.game.stop()) at a generated
         # suspension point: inside a handler of a lifecycle event, while a handler holds a lifecycle queue event, or while the
